@@ -2,7 +2,7 @@
 import sys
 from typing import List
 
-from twisted.internet.defer import Deferred
+from twisted.internet.defer import Deferred, DeferredList, FirstError
 from twisted.internet.task import (Cooperator, NotPaused, SchedulerStopped, TaskDone, TaskFailed, TaskFinished,
                                    TaskStopped)
 from twisted.python.failure import Failure
@@ -26,7 +26,10 @@ B = {}
 BOUNDS_TEXT = ("Cooperator(started=True) with a list scheduler and a termination predicate that ends the tick after "
                "one work unit; n tasks (history: n=2 with <= hist operations, history3: n3=3 with <= hist3 "
                "operations) all created up front (the last one through coiterate(), the others through cooperate()), iterator scripts of slen symbolic steps {0 yield value, 1 yield "
-               "unfired Deferred, 2 raise, any other integer stop} then StopIteration; operations {tick, pause i, resume i, stop i, fire "
+               "unfired Deferred, 2 raise, any other integer stop} then StopIteration; the yielded Deferreds of a run "
+               "are symbolically all plain Deferred / instances of a trivial Deferred subclass / "
+               "DeferredList([d], fireOnOneErrback=True, consumeErrors=True) around the Deferred that is fired (the "
+               "DeferredList kind only in history, n=2); operations {tick, pause i, resume i, stop i, fire "
                "the Deferred task i waits on with success / failure, Cooperator.stop()}; a history ends at the "
                "first operation that is not applicable or that only raises (its exception is checked)")
 OUTSIDE = ["resume() of a task that is paused only because it waits on a Deferred it yielded (unbalanced "
@@ -61,6 +64,10 @@ class _DFail(Exception):
     pass
 
 
+class _SubDeferred(Deferred):
+    """a trivial application subclass of Deferred"""
+
+
 class _DC:
     def __init__(self, f):
         self.f = f
@@ -85,7 +92,7 @@ def _conc(v, hi):
 _FIN_EXC = {"done": TaskDone, "failed": TaskFailed, "stopped": TaskStopped, "sched": SchedulerStopped}
 
 
-def _run(n, scripts, ops, slen):
+def _run(n, scripts, ops, slen, dkind):
     calls = []                      # delayed calls handed out by the scheduler
 
     def scheduler(f):
@@ -95,7 +102,9 @@ def _run(n, scripts, ops, slen):
 
     coop = Cooperator(terminationPredicateFactory=_one_unit, scheduler=scheduler)
     nexts = []                      # (task, epoch) for every next() call
-    pend = [None] * n               # Deferred task i yielded and waits on
+    pend = [None] * n               # Deferred to fire for the one task i yielded and waits on
+    yielded = [None] * n            # the object task i yielded (pend[i] itself, or a DeferredList around it)
+    dk = [None]
     badnext = []
     done = [[] for _ in range(n)]   # whenDone firings
 
@@ -144,11 +153,20 @@ def _run(n, scripts, ops, slen):
             if st == 0:
                 return ("v", i, p)
             if st == 1:
-                d = Deferred()
+                if dk[0] is None:
+                    dk[0] = _conc(dkind, 2)         # one path per kind of yielded Deferred, fixed for the run
+                if dk[0] == 1:
+                    d = y = _SubDeferred()
+                elif dk[0] == 2:
+                    d = Deferred()
+                    y = DeferredList([d], fireOnOneErrback=True, consumeErrors=True)
+                else:
+                    d = y = Deferred()
                 pend[i] = d
+                yielded[i] = y
                 wait[i] = True
                 m_remove(i)
-                return d
+                return y
             if st == 2:
                 fin[i] = "failed"
                 exp_done[i] = "boom"
@@ -188,6 +206,9 @@ def _run(n, scripts, ops, slen):
             return kind == "ok" and r is its[i]
         if kind != "fail" or not isinstance(r, Failure):
             return False
+        if e == "dfail" and dk[0] == 2:
+            # a DeferredList(fireOnOneErrback=True) reports the failure wrapped in FirstError
+            return r.check(FirstError) is not None and r.value.subFailure.check(_DFail) is not None
         want = {"boom": _Boom, "dfail": _DFail, "stopped": TaskStopped, "sched": SchedulerStopped}[e]
         return r.check(want) is not None
 
@@ -226,7 +247,7 @@ def _run(n, scripts, ops, slen):
                 else:
                     if len(late) != 1 or len(done[i]) != 1 or late[0] is not done[i][0][1]:
                         return _fail("late whenDone differs from the first one")
-        for d in pend:
+        for d in pend + yielded:
             if d is not None:
                 d.addErrback(lambda f: None)
         return result
@@ -329,7 +350,7 @@ def _run(n, scripts, ops, slen):
                 d.errback(_DFail())
             # the task's own callbacks must not leave an error in the Deferred it yielded
             leftover = []
-            d.addErrback(leftover.append)
+            yielded[i].addErrback(leftover.append)
             if leftover:
                 return finish(_fail("error left in the yielded Deferred: %r" % (leftover[0].type,)))
         else:                                       # ---- Cooperator.stop()
@@ -361,22 +382,24 @@ def _run(n, scripts, ops, slen):
     return finish(True)
 
 
-def history(scripts: List[int], ops: List[int]) -> bool:
+def history(scripts: List[int], ops: List[int], dkind: int) -> bool:
     """
     pre: len(scripts) == B['n'] * B['slen']
     pre: len(ops) <= B['hist']
+    pre: 0 <= dkind <= 2
     post: _
     """
-    return _run(B['n'], scripts, ops, B['slen'])
+    return _run(B['n'], scripts, ops, B['slen'], dkind)
 
 
-def history3(scripts: List[int], ops: List[int]) -> bool:
+def history3(scripts: List[int], ops: List[int], dkind: int) -> bool:
     """
     pre: len(scripts) == B['n3'] * B['slen']
     pre: len(ops) <= B['hist3']
+    pre: 0 <= dkind <= 1
     post: _
     """
-    return _run(B['n3'], scripts, ops, B['slen'])
+    return _run(B['n3'], scripts, ops, B['slen'], dkind)
 
 
 def _shards(nkey, two_level):
@@ -386,7 +409,10 @@ def _shards(nkey, two_level):
         # resume / fire as first operation end the history at once and share one shard with the empty history
         out = [("len(ops) == 0 or (%d <= ops[0] <= %d) or ops[0] >= %d" % (n + 1, 2 * n, 3 * n + 1),
                 "len(ops) == 0 or ops[0] != %d" % (5 * n + 1))]
-        heavy = [("len(ops) >= 1 and ops[0] == 0", "scripts[0] == %d" % s) for s in range(3)]
+        heavy = [("len(ops) >= 1 and ops[0] == 0", "scripts[0] == %d" % s) for s in (0, 2)]
+        # first step yields a Deferred: one shard per kind of Deferred (history: 3 kinds, history3: 2)
+        heavy += [("len(ops) >= 1 and ops[0] == 0", "scripts[0] == 1 and dkind == %d" % k)
+                  for k in range(3 if not two_level else 2)]
         heavy += [("len(ops) >= 1 and ops[0] == 0", "scripts[0] < 0 or scripts[0] > 2")]
         heavy += [("len(ops) >= 1 and ops[0] == %d" % o,) for o in list(range(1, n + 1)) +
                   list(range(2 * n + 1, 3 * n + 1)) + [5 * n + 1]]
@@ -416,11 +442,12 @@ HARNESSES = [
 ]
 
 VECTORS = {
-    "history": [([0, 0, 0, 0, 0, 0], [0, 0, 0, 0]), ([1, 0, 3, 0, 2, 0], [0, 0, 7, 0]),
-                ([1, 0, 0, 0, 0, 0], [0, 1, 7, 3]), ([0, 0, 0, 0, 0, 0], [1, 0, 3, 11]),
-                ([1, 0, 0, 1, 0, 0], [0, 0, 9, 5]), ([3, 0, 0, 2, 0, 0], [0, 0, 1, 6]),
-                ([1, 0, 0, 0, 0, 0], [0, 5, 9, 1])],
-    "history3": [([0] * 9, [0, 0, 0, 0]), ([1, 0, 0, 0, 0, 0, 0, 0, 0], [0, 10, 0, 0]),
-                 ([0, 0, 0, 0, 0, 0, 0, 0, 0], [0, 1, 0, 0]), ([0, 0, 0, 2, 0, 0, 0, 0, 0], [0, 0, 16]),
-                 ([0, 0, 0, 1, 0, 0, 0, 0, 0], [0, 0, 2, 14])],
+    "history": [([0, 0, 0, 0, 0, 0], [0, 0, 0, 0], 0), ([1, 0, 3, 0, 2, 0], [0, 0, 7, 0], 1),
+                ([1, 0, 0, 0, 0, 0], [0, 1, 7, 3], 2), ([0, 0, 0, 0, 0, 0], [1, 0, 3, 11], 0),
+                ([1, 0, 0, 1, 0, 0], [0, 0, 9, 5], 1), ([3, 0, 0, 2, 0, 0], [0, 0, 1, 6], 0),
+                ([1, 0, 0, 0, 0, 0], [0, 5, 9, 1], 2), ([1, 0, 0, 1, 0, 0], [0, 0, 9, 8], 2),
+                ([1, 0, 0, 0, 0, 0], [0, 9, 0, 0], 1), ([1, 0, 0, 0, 0, 0], [0, 7, 0, 0], 2)],
+    "history3": [([0] * 9, [0, 0, 0, 0], 0), ([1, 0, 0, 0, 0, 0, 0, 0, 0], [0, 10, 0, 0], 1),
+                 ([0, 0, 0, 0, 0, 0, 0, 0, 0], [0, 1, 0, 0], 0), ([0, 0, 0, 2, 0, 0, 0, 0, 0], [0, 0, 16], 0),
+                 ([0, 0, 0, 1, 0, 0, 0, 0, 0], [0, 0, 2, 14], 1), ([1, 0, 0, 0, 0, 0, 0, 0, 0], [0, 13, 0, 0], 1)],
 }
